@@ -114,6 +114,18 @@ func genC14(r *PRNG, tier string) *Scenario {
 		d.Backend = Backend{Kind: "byz", Reply: rep}
 		scn.HS.Dials = append(scn.HS.Dials, d)
 	}
+	if r.Bool() && n > 1 {
+		// one Dialer value serves every dial of the run (Dialer-level settings are then those of dial 0)
+		scn.HS.SharedDialer = true
+		d0 := scn.HS.Dials[0]
+		for i := range scn.HS.Dials {
+			d := &scn.HS.Dials[i]
+			d.Hooks, d.Comp, d.RBuf, d.WBuf, d.Subprotocols = d0.Hooks, d0.Comp, d0.RBuf, d0.WBuf, d0.Subprotocols
+			if len(d.Subprotocols) > 0 {
+				delete(d.Header, "Sec-Websocket-Protocol")
+			}
+		}
+	}
 	scn.Net = NetCfg{DefCap: genCap(r)}
 	scn.Sched.IdleHorizon = 2000
 	return scn
